@@ -14,6 +14,8 @@
 //                                               accil (accessor viewing every second entry: access(p,i) = p[2i+1]) | vdyn | vfull |
 //                                               adyn | sdyn | sfull (variadic/array/span of rank_dynamic resp. rank extents) |
 //                                               def (default-construct, then assign) | swap
+//   mdarray IT PAT LAY CTOR ACC EXTS [STRIDES] [pad=K]  (LAY = stride: the array's layout policy is PadLayout, a policy over
+//                                                layout_stride::mapping; forms map mapval contmv copy mapcontal mapcontmval copyal allocval span spanal spanil spanilal)
 //   mdarray IT PAT LAY CTOR ACC EXTS [pad=K]    CTOR: ext extval map mapval cont contmv copy conv span spanal strided alloc allocval variadic
 //                                               arrext arrval arrcont (std::array container, fully static extents)
 //                                               contmve extvalal contal contmval mapcontal mapcontmval copyal swap default
@@ -233,6 +235,50 @@ static VL strictList(const std::string& s) {
 // ------------------------------------------------------------------------------------------------------------------
 
 template <class L> constexpr bool isStride = std::is_same_v<L, S::layout_stride>;
+
+// a user-supplied layout policy: the mapping is Dune's own layout_stride::mapping (all addressing is done by the
+// code under test); the policy only adds what mdarray requires of its layout, a mapping constructible from extents
+// alone (then canonical row-major strides).  With padded strides this is a unique, strided, NON-exhaustive layout of
+// an owning array (cf. std::layout_right_padded).
+struct PadLayout {
+  template <class E> class mapping {
+    using Inner = S::layout_stride::mapping<E>;
+    template <class> friend class mapping;
+  public:
+    using extents_type = E;
+    using index_type = typename E::index_type;
+    using size_type = typename E::size_type;
+    using rank_type = typename E::rank_type;
+    using layout_type = PadLayout;
+    constexpr mapping() = default;
+    constexpr mapping(const E& e) : inner_(e, rowMajor(e)) {}
+    constexpr mapping(const E& e, const std::array<index_type, E::rank()>& s) : inner_(e, s) {}
+    constexpr mapping(const Inner& m) : inner_(m) {}
+    template <class OE, std::enable_if_t<std::is_constructible_v<E, OE>, int> = 0>
+    constexpr mapping(const mapping<OE>& o) : inner_(o.inner_) {}
+    constexpr const E& extents() const noexcept { return inner_.extents(); }
+    constexpr index_type required_span_size() const noexcept { return inner_.required_span_size(); }
+    template <class... I> constexpr index_type operator()(I... ii) const noexcept { return inner_(ii...); }
+    constexpr index_type stride(rank_type r) const noexcept { return inner_.stride(r); }
+    static constexpr bool is_always_unique() noexcept { return true; }
+    static constexpr bool is_always_exhaustive() noexcept { return false; }
+    static constexpr bool is_always_strided() noexcept { return true; }
+    constexpr bool is_unique() const noexcept { return true; }
+    constexpr bool is_exhaustive() const noexcept { return inner_.is_exhaustive(); }
+    constexpr bool is_strided() const noexcept { return true; }
+    friend constexpr bool operator==(const mapping& a, const mapping& b) noexcept { return a.inner_ == b.inner_; }
+    const Inner& inner() const { return inner_; }
+  private:
+    static constexpr std::array<index_type, E::rank()> rowMajor(const E& e) {
+      std::array<index_type, E::rank()> s{};
+      index_type prod = 1;
+      for (std::size_t r = E::rank(); r-- > 0;) { s[r] = prod; prod *= e.extent(r); }
+      return s;
+    }
+    Inner inner_;
+  };
+};
+
 template <class I> using OtherIndex = std::conditional_t<std::is_same_v<I, int>, std::size_t, int>;
 // can a strided mapping be built from another mapping type over these extents?  (true for every rank once
 // fixes/C14_stride_rank0.patch is applied; without it rank 0 is missing, which is reported as a failure)
@@ -1024,10 +1070,11 @@ template <class E, class L, class A, class M> ArrRaw arrRaw(A& a, const M& m, co
   return w;
 }
 
-static Result arrJudge(const Ctx& c, const ArrRaw& w, const std::vector<VL>& tuples, long want, const VL& expectInit, Result res) {
+// want = number of index tuples (size()), span = required span of the array's mapping (left/right: the same number)
+static Result arrJudge(const Ctx& c, const ArrRaw& w, const std::vector<VL>& tuples, long want, long span, const VL& expectInit, Result res) {
   auto exp = expectedOffsets(c.lay, c.ext, c.str);
   std::size_t n = tuples.size();
-  if (w.csize != want + c.pad) orFail(res, "mdarray", "container_size " + std::to_string(w.csize) + " but the container handed over has " + std::to_string(want + c.pad) + " elements");
+  if (w.csize != span + c.pad) orFail(res, "mdarray", "container_size " + std::to_string(w.csize) + " but the container handed over / the required span has " + std::to_string(span + c.pad) + " elements");
   if (c.pad) stat("mdarray_padded_container");
   if (w.init != expectInit) orFail(res, "mdarray", "initial contents");
   VL shadow(w.init);
@@ -1066,7 +1113,7 @@ static Result arrJudge(const Ctx& c, const ArrRaw& w, const std::vector<VL>& tup
   if (w.size != want || w.empty != (want == 0))
     orFail(res, "mdarray", "size()/empty(): size() = " + std::to_string(w.size) + " but the index space has " + std::to_string(want) + " index tuples");
   if (w.vsize != want || w.cvsize != want) orFail(res, "mdarray", "size() of the array's view does not count the index tuples");
-  if (w.ccsize != want) orFail(res, "mdarray", "a copy made through the view owns " + std::to_string(w.ccsize) + " elements, not size()");
+  if (w.ccsize != span) orFail(res, "mdarray", "a copy made through the view owns " + std::to_string(w.ccsize) + " elements, not the required span " + std::to_string(span));
   for (std::size_t i = 0; i < n && i < w.ccVals.size(); ++i) {
     long e = exp[tuples[i]];
     if (e >= 0 && e < (long)w.after.size() && w.ccVals[i] != w.after[e]) { orFail(res, "mdarray", "a copy made through the view holds a different element at " + listStr(tuples[i])); break; }
@@ -1077,8 +1124,124 @@ static Result arrJudge(const Ctx& c, const ArrRaw& w, const std::vector<VL>& tup
   return res;
 }
 
+
+// deduction guides of mdarray / mdspan and default_accessor used directly: the deduced types, and that the deduced objects
+// address the designated elements (cont has at least the required span of m)
+template <class E, class L, class M>
+void guideChecks(const E& e, const M& m, const std::vector<int>& cont, std::map<VL, long>& exp, const std::vector<VL>& tuples, Result& res) {
+  using I = typename E::index_type;
+  constexpr std::size_t R = E::rank();
+  stat("guides_checked");
+  S::mdarray g1(e, cont);
+  S::mdarray g2(m, cont);
+  S::mdarray g2m(m, std::vector<int>(cont));
+  S::mdarray g2a(m, cont, std::allocator<int>());
+  S::mdspan s1(g2.container_data(), m);
+  S::mdspan s2(g1.container_data(), e);
+  S::mdspan s3(static_cast<const int*>(cont.data()), m, S::default_accessor<const int>{});
+  S::mdarray g3(s1);
+  const std::allocator<int> al;  // (an rvalue allocator would select the guide (const Mapping&, Container&&): observation, outside C14)
+  S::mdarray g3a(s1, al);
+  S::mdspan s4(g2);
+  using AR = S::mdarray<int, E, S::layout_right, std::vector<int>>;
+  using AL = S::mdarray<int, E, L, std::vector<int>>;
+  if (!std::is_same_v<decltype(g1), AR> || !std::is_same_v<decltype(g2), AL> || !std::is_same_v<decltype(g2m), AL> ||
+      !std::is_same_v<decltype(g2a), AL> || !std::is_same_v<decltype(g3), AL> || !std::is_same_v<decltype(g3a), AL>)
+    orFail(res, "mdarray", "a deduction guide of mdarray deduces another type");
+  if (!std::is_same_v<decltype(s1), S::mdspan<int, E, L>> || !std::is_same_v<decltype(s2), S::mdspan<int, E>> ||
+      !std::is_same_v<decltype(s3), S::mdspan<const int, E, L, S::default_accessor<const int>>> ||
+      !std::is_same_v<decltype(s4), S::mdspan<int, E, L>>)
+    orFail(res, "mdspan", "a deduction guide of mdspan deduces another type");
+  if (g1.container() != cont || g2.container() != cont || g2m.container() != cont || g2a.container() != cont)
+    orFail(res, "mdarray", "array built through a deduction guide does not own the elements handed over");
+  S::default_accessor<int> da;
+  S::default_accessor<const int> dac(da);
+  bool ok = true;
+  for (auto& t : tuples) {
+    long o = exp[t];
+    auto idx = toArr<I, R>(t);
+    ok = ok && &accessAt(g2, "arr", idx) == g2.container_data() + o && &accessAt(s1, "arr", idx) == g2.container_data() + o &&
+         &accessAtC(s3, "arr", idx) == cont.data() + o && &accessAt(s4, "arr", idx) == g2.container_data() + o &&
+         accessAt(g3, "arr", idx) == cont[o] && accessAt(g3a, "arr", idx) == cont[o] &&
+         da.offset(g2.container_data(), std::size_t(o)) == g2.container_data() + o && &da.access(g2.container_data(), std::size_t(o)) == g2.container_data() + o &&
+         &dac.access(cont.data(), std::size_t(o)) == cont.data() + o;
+  }
+  if (!ok) orFail(res, "mdarray", "objects built through deduction guides / default_accessor do not address the designated elements");
+  if (long(g3.container_size()) != long(m.required_span_size()) || long(g3a.container_size()) != long(m.required_span_size()))
+    orFail(res, "mdarray", "array deduced from a view does not own the required span");
+}
+
+// an owning array with a strided (padded / permuted, in general non-exhaustive) layout: the policy PadLayout over Dune's
+// layout_stride::mapping.  Only the constructor forms that are handed a mapping or a view.
+static const std::set<std::string> STRIDE_ACTORS = {"map", "mapval", "contmv", "copy", "mapcontal", "mapcontmval", "copyal", "allocval",
+                                                    "span", "spanal", "spanil", "spanilal"};
+template <class E> Result doMdarrayStrided(const Ctx& c) {
+  using I = typename E::index_type;
+  using L = PadLayout;
+  using A = S::mdarray<int, E, L>;
+  using M = typename A::mapping_type;
+  constexpr std::size_t R = E::rank();
+  if (!validAcc(c.acc, R) || !STRIDE_ACTORS.count(c.x)) throw BadOp{};
+  auto tuples = tuplesRowMajor(c.ext);
+  auto exp = expectedOffsets(c.lay, c.ext, c.str);
+  // the property speaks about stride vectors that make the mapping unique; the required span by enumeration
+  std::set<long> seen;
+  long span = 0;
+  for (auto& t : tuples) { if (!seen.insert(exp[t]).second) throw BadOp{}; span = std::max(span, exp[t] + 1); }
+  long want = (long)tuples.size();
+  static const std::set<std::string> takesContainer = {"contmv", "copy", "mapcontal", "mapcontmval", "copyal"};
+  if (c.pad != 0 && !takesContainer.count(c.x)) throw BadOp{};
+  stat("mdarray_strided");
+  if (span > want) stat("mdarray_strided_nonexhaustive");
+  E e = makeExt<E>("afull", c.ext);
+  M m(e, toArr<I, R>(c.str));
+  if (long(m.required_span_size()) != span) {
+    Result r; r.impl = "failed";
+    r.oracle = "FAIL mdarray: required_span_size() " + std::to_string(long(m.required_span_size())) + " but the largest offset + 1 is " + std::to_string(span);
+    return r;
+  }
+  std::vector<int> cont(span + c.pad), src(span), expectInit(span, 0);
+  for (long k = 0; k < span + c.pad; ++k) cont[k] = int(10 + k);
+  for (long k = 0; k < span; ++k) src[k] = int(3 * k + 1);
+  std::vector<int> src2(2 * span + 1);
+  for (std::size_t k = 0; k < src2.size(); ++k) src2[k] = int(3 * k + 1);
+  std::vector<std::size_t> accLog;
+  std::optional<A> aO;
+  const std::string& k = c.x;
+  Result res;
+  if (k == "map") aO.emplace(m);
+  else if (k == "mapval") { aO.emplace(m, 7); expectInit.assign(span, 7); }
+  else if (k == "allocval") { aO.emplace(m, 7, std::allocator<int>()); expectInit.assign(span, 7); }
+  else if (k == "contmv") { std::vector<int> tmp(cont); aO.emplace(m, std::move(tmp)); expectInit = cont; }
+  else if (k == "copy") {
+    A a0(m, cont); aO.emplace(a0); expectInit = cont; if (!(a0 == *aO)) orFail(res, "mdarray", "copy compares unequal");
+    guideChecks<E, L>(e, m, cont, exp, tuples, res);
+  }
+  else if (k == "mapcontal") { aO.emplace(m, cont, std::allocator<int>()); expectInit = cont; }
+  else if (k == "mapcontmval") { std::vector<int> tmp(cont); aO.emplace(m, std::move(tmp), std::allocator<int>()); expectInit = cont; }
+  else if (k == "copyal") { A a0(m, cont); aO.emplace(a0, std::allocator<int>()); expectInit = cont; }
+  else if (k == "span" || k == "spanal") {
+    // from a view with the same (padded) mapping: the elements land at their offsets, the padding is value-initialised
+    S::mdspan<int, E, L> sp(src.data(), m);
+    if (k == "span") aO.emplace(sp); else aO.emplace(sp, std::allocator<int>());
+    for (auto& t : tuples) expectInit[exp[t]] = src[exp[t]];
+  }
+  else {  // spanil, spanilal
+    S::mdspan<int, E, L, Interleaved<int>> sp(src2.data(), m, Interleaved<int>(&accLog));
+    if (k == "spanil") aO.emplace(sp); else aO.emplace(sp, std::allocator<int>());
+    for (auto& t : tuples) expectInit[exp[t]] = src2[2 * exp[t] + 1];
+    std::vector<std::size_t> wantLog;
+    for (auto& t : tuples) wantLog.push_back(std::size_t(exp[t]));
+    std::sort(wantLog.begin(), wantLog.end());
+    std::sort(accLog.begin(), accLog.end());
+    if (accLog != wantLog) orFail(res, "mdarray", "construction from a view did not fetch every element exactly once through the accessor of the view");
+  }
+  if (aO->is_exhaustive() != (span == want && want > 0) && R > 0) orFail(res, "mdarray", "is_exhaustive() of a strided array");
+  return arrJudge(c, arrRaw<E, L>(*aO, m, c, tuples), tuples, want, span, VL(expectInit.begin(), expectInit.end()), res);
+}
+
 template <class E, class L> Result doMdarray(const Ctx& c) {
-  if constexpr (isStride<L>) throw BadOp{};
+  if constexpr (isStride<L>) return doMdarrayStrided<E>(c);
   else {
     using I = typename E::index_type;
     using A = S::mdarray<int, E, L>;
@@ -1129,7 +1292,7 @@ template <class E, class L> Result doMdarray(const Ctx& c) {
       std::sort(accLog.begin(), accLog.end());
       if (accLog != wantLog) orFail(res, "mdarray", "construction from a view did not fetch every element exactly once through the accessor of the view");
     }
-    else if (k == "cont") { aO.emplace(e, cont); expectInit = cont; }
+    else if (k == "cont") { aO.emplace(e, cont); expectInit = cont; guideChecks<E, L>(e, m, cont, exp, tuples, res); }
     else if (k == "contmv") { std::vector<int> tmp(cont); aO.emplace(m, std::move(tmp)); expectInit = cont; }
     else if (k == "copy") { A a0(m, cont); aO.emplace(a0); expectInit = cont; if (!(a0 == *aO)) orFail(res, "mdarray", "copy compares unequal"); }
     else if (k == "conv") {
@@ -1191,14 +1354,14 @@ template <class E, class L> Result doMdarray(const Ctx& c) {
           if (k == "arrext") { a2.emplace(e); expectInit.assign(N, 0); }
           else if (k == "arrval") { a2.emplace(e, 7); expectInit.assign(N, 7); }
           else { std::array<int, N> ca{}; for (std::size_t q = 0; q < N; ++q) ca[q] = int(10 + q); a2.emplace(e, ca); expectInit = cont; }
-          return arrJudge(c, arrRaw<E, L>(*a2, m, c, tuples), tuples, want, VL(expectInit.begin(), expectInit.end()), res);
+          return arrJudge(c, arrRaw<E, L>(*a2, m, c, tuples), tuples, want, want, VL(expectInit.begin(), expectInit.end()), res);
         };
         if (c.pad == 2) return run(std::integral_constant<std::size_t, N0 + 2>{});
         return run(std::integral_constant<std::size_t, N0>{});
       } else throw BadOp{};
     }
     else throw BadOp{};
-    return arrJudge(c, arrRaw<E, L>(*aO, m, c, tuples), tuples, want, VL(expectInit.begin(), expectInit.end()), res);
+    return arrJudge(c, arrRaw<E, L>(*aO, m, c, tuples), tuples, want, want, VL(expectInit.begin(), expectInit.end()), res);
   }
 }
 
@@ -1781,7 +1944,7 @@ static Result execInner(const std::string& line) {
   if (c.kind == "mdarray") {
     c.acc = w[p++];
     // optional last token: surplus elements of the container
-    if (w.size() == need + 1 && w.back().rfind("pad=", 0) == 0) {
+    if (w.size() > need && w.back().rfind("pad=", 0) == 0) {
       const std::string k = w.back().substr(4);
       if (k.size() != 1 || k[0] < '1' || k[0] > '6') throw BadOp{};
       c.pad = k[0] - '0';
@@ -1805,7 +1968,6 @@ static Result execInner(const std::string& line) {
     if (c.ext[r] > MAXEXT && !big) throw BadOp{};
     if (c.patv[r] >= 0 && c.patv[r] != c.ext[r]) throw BadOp{};
   }
-  if (c.kind == "mdarray" && c.lay == STRIDE) throw BadOp{};
   const Entry* en = findEntry(c.it + ":" + c.pat);
   if (!en) throw BadOp{};
   if (big) {
@@ -2033,6 +2195,18 @@ static std::string genOne(Rng& r, const std::string& kind, const std::string& ke
       if (!anyDyn) ct = "swap";
       else if (!r.coin(1, 10))  // (rarely keep the extents: both sides answer bad-op)
         for (std::size_t q = 0; q < R; ++q) if (patv[q] < 0) ext[q] = 0;
+    }
+    if (r.coin(1, 4)) {
+      // an array with a strided layout policy (padded / permuted strides, mostly unique; non-unique ones are bad-op on both sides)
+      static const std::vector<std::string> SACT = {"map", "mapval", "contmv", "copy", "mapcontal", "mapcontmval", "copyal", "allocval",
+                                                    "span", "span", "spanal", "spanal", "spanil", "spanilal"};
+      if (!r.coin(1, 25)) ct = r.pick(SACT);
+      // a third of them over an index space without extents 0/1 (then padded strides give a non-exhaustive array)
+      if (r.coin(1, 3))
+        for (std::size_t q = 0; q < R; ++q) if (patv[q] < 0) ext[q] = 2 + (long)r.below(3);
+      os << "stride " << ct << " " << acc << " " << listStr(ext) << " " << listStr(genStrides(r, ext));
+      if (PADDABLE.count(ct) ? r.coin(1, 2) : r.coin(1, 60)) os << " pad=" << 1 + r.below(6);
+      return os.str();
     }
     os << (r.coin() ? "left" : "right") << " " << ct << " " << acc << " " << listStr(ext);
     // a container larger than the required span (rarely also where no container is handed over: bad-op on both sides)
